@@ -107,12 +107,42 @@ func taggedValue(d *json.Decoder) (M, bool) {
 }
 
 type result struct {
+	Code  int        `json:"code"`
+	Out   string     `json:"out"`
+	Eq    bool       `json:"eq"`
+	Again bool       `json:"again"`
+	Note  string     `json:"note"`
+	Built []builtRes `json:"built"`
+}
+
+// builtRes mirrors the driver's record of one value built by a type-directed change.
+type builtRes struct {
+	What  string `json:"what"`
+	Site  string `json:"site"`
+	Valid string `json:"valid"`
 	Code  int    `json:"code"`
 	Out   string `json:"out"`
+	Dec   bool   `json:"dec"`
 	Eq    bool   `json:"eq"`
-	Again bool   `json:"again"`
 	Note  string `json:"note"`
 }
+
+// classify turns the text written for a built value into what TLC judges: the tagged
+// value when the domain of spec/SchemaValid.tla can hold it, [t |-> "opaque"] when it is
+// JSON outside that domain (then only well-formedness, re-acceptance and equality are
+// judged), [t |-> "malformed"] when it is not JSON.
+func classify(text []byte) M {
+	if !json.Valid(text) {
+		return M{"t": "malformed"}
+	}
+	v, ok := tagged(text)
+	if !ok || !inDomain(v) {
+		return M{"t": "opaque"}
+	}
+	return v
+}
+
+func inDomain(v M) bool { return true } // any character is a one-character symbol; numbers are checked by tagged
 
 // Check is the C04 entry point.
 func Check(r *core.Run) error {
@@ -133,9 +163,9 @@ func Check(r *core.Run) error {
 	if err != nil {
 		return err
 	}
-	nRand := 60
+	nRand, nBuild := 60, 2
 	if r.Thorough() {
-		nRand = 900
+		nRand, nBuild = 900, 6
 	}
 	base := len(schemas)
 	schemas = c03.AddRandom(schemas, nRand, uint64(r.Seed)+0x04)
@@ -177,7 +207,7 @@ func Check(r *core.Run) error {
 			}
 		}
 		out := filepath.Join(r.Scratch, p.Name+".out")
-		job, _ := json.Marshal(M{"pkg": p.Name, "reqs": reqs, "out": out})
+		job, _ := json.Marshal(M{"pkg": p.Name, "reqs": reqs, "out": out, "build": nBuild, "seed": uint64(r.Seed)})
 		jf := filepath.Join(r.Scratch, p.Name+".job")
 		os.WriteFile(jf, job, 0o644)
 		if o, err := gencode.Run(bin, nil, jf); err != nil {
@@ -263,7 +293,121 @@ func Check(r *core.Run) error {
 			r.Violate(what, M{"schema": schemas[i], "verdict": v.Kind})
 		}
 	}
+	// values built in the driver by a type-directed change of a decoded value
+	var blines [][]byte
+	var bdesc []string
+	var bschema []int
+	seenB := map[string]bool{}
+	nBuilt, nBuiltValid, nBuiltUnknown := 0, 0, 0
+	for i := range schemas {
+		for k, g := range got[i] {
+			for _, b := range g.Built {
+				nBuilt++
+				if b.Valid != "yes" {
+					if b.Valid == "unknown" {
+						nBuiltUnknown++
+					}
+					continue
+				}
+				nBuiltValid++
+				out := M{"t": "none"}
+				if b.Code == 1 {
+					out = classify([]byte(b.Out))
+				}
+				es, sa := shapeFlags(c03.RenderSchema(schemas[i], "S"))
+				line, _ := json.Marshal(M{"k": "built", "schema": schemas[i], "what": b.What, "code": b.Code, "out": out, "dec": b.Dec, "eq": b.Eq, "emptyStruct": es, "sharedArray": sa})
+				if seenB[string(line)] {
+					continue
+				}
+				seenB[string(line)] = true
+				r.Nontrivial("built|" + b.What)
+				blines = append(blines, line)
+				bschema = append(bschema, i)
+				bdesc = append(bdesc, fmt.Sprintf("value decoded from %s, then %s at %s -> status class %d text %s re-accepted=%v equal=%v %s", bodies[k], b.What, b.Site, b.Code, firstN(b.Out, 300), b.Dec, b.Eq, b.Note))
+			}
+		}
+	}
+	r.Cov("built_values", nBuilt)
+	r.Cov("built_values_passing_validate", nBuiltValid)
+	r.Cov("built_values_of_types_without_own_validation_skipped", nBuiltUnknown)
+	r.Cov("built_values_judged_distinct", len(blines))
+	r.AddEvals(int64(nBuiltValid))
+	bvs, err := obs.Check(r, blines, obs.CheckOpts{Module: "RoundTripCheck", Cfg: obs.StdCfg("KnownDeviations = " + r.KnownSet()), ChunkSize: 400, Parallel: 10, Env: map[string]string{"VERIF_AUX": aux}})
+	if err != nil {
+		return err
+	}
+	if f := os.Getenv("VERIF_C04_DUMP"); f != "" {
+		os.WriteFile(f, bytes.Join(blines, []byte("\n")), 0o644)
+	}
+	if os.Getenv("VERIF_C04_STATS") != "" {
+		cnt := map[string]int{}
+		first := map[string]string{}
+		for _, v := range bvs {
+			var l struct{ What string }
+			json.Unmarshal(blines[v.Index], &l)
+			k := l.What + " " + v.Kind
+			cnt[k]++
+			if first[k] == "" {
+				sb, _ := json.Marshal(c03.RenderSchema(schemas[bschema[v.Index]], "S"))
+				first[k] = string(sb) + " :: " + bdesc[v.Index]
+			}
+		}
+		for k, n := range cnt {
+			fmt.Fprintf(os.Stderr, "BUILT-STATS %5d %s\n      e.g. %s\n", n, k, firstN(first[k], 700))
+		}
+	}
+	for _, v := range bvs {
+		i := bschema[v.Index]
+		sb, _ := json.Marshal(c03.RenderSchema(schemas[i], fmt.Sprintf("S%d", i)))
+		what := fmt.Sprintf("schema %s: %s: %s", sb, bdesc[v.Index], v.Kind)
+		if strings.HasPrefix(v.Kind, "known=") {
+			r.KnownHit(strings.TrimPrefix(v.Kind, "known="), what)
+			continue
+		}
+		r.Violate(what, M{"schema": schemas[i], "verdict": v.Kind, "built": bdesc[v.Index]})
+	}
 	return nil
+}
+
+// shapeFlags describes the schema for two recorded findings: whether it has an object
+// schema without declared properties (boxed as a pointer to an empty struct) and whether
+// an array component of the shared definitions is used as an array item.
+func shapeFlags(schema any) (emptyStruct, sharedArray bool) {
+	var walk func(x any)
+	walk = func(x any) {
+		switch t := x.(type) {
+		case map[string]any:
+			if t["type"] == "object" {
+				if p, ok := t["properties"].(map[string]any); !ok || len(p) == 0 {
+					emptyStruct = true
+				}
+			}
+			if it, ok := t["items"].(map[string]any); ok {
+				if ref, ok := it["$ref"].(string); ok && strings.Contains(ref, "/DArr") {
+					sharedArray = true
+				}
+			}
+			for _, v := range t {
+				walk(v)
+			}
+		case []any:
+			for _, v := range t {
+				walk(v)
+			}
+		}
+	}
+	b, _ := json.Marshal(schema)
+	var v any
+	json.Unmarshal(b, &v)
+	walk(v)
+	return
+}
+
+func firstN(s string, n int) string {
+	if len(s) > n {
+		return s[:n]
+	}
+	return s
 }
 
 // Replay re-runs the check.
